@@ -238,7 +238,8 @@ def xmi_corruptions(data):
         r, es = fresh()
         v = es[i].attrib.pop(a)
         es[i].attrib['zz' + a] = v
-        yield 'rename-feature', f'attribute {a} of element {i} renamed', ser(r)
+        yield ('rename-reference' if a in REFS else 'rename-attribute'), \
+            f'attribute {a} of element {i} ({"root" if i == 0 else "nested"}) renamed', ser(r)
         kind = ATTR_KIND.get(a)
         if kind in ('int', 'float', 'int*', 'enum', 'bool'):
             r, es = fresh()
@@ -259,7 +260,7 @@ def xmi_corruptions(data):
         r, es = fresh()
         t = es[i].tag
         es[i].tag = (t[:t.index('}') + 1] + 'zz' + t[t.index('}') + 1:]) if t.startswith('{') else 'zz' + t
-        yield 'rename-feature', f'element {i} <{e.tag}> renamed', ser(r)
+        yield 'rename-element', f'element {i} <{e.tag}> renamed', ser(r)
         r, es = fresh()
         es[i].getparent().remove(es[i])
         yield 'remove-element', f'element {i} <{e.tag}> removed', ser(r)
@@ -342,7 +343,9 @@ def json_corruptions(data):
                 items = [(('zz' + kk) if kk == key else kk, vv) for kk, vv in parent.items()]
                 parent.clear()
                 parent.update(items)
-            yield 'rename-feature', f'key {where} renamed', ser(edit(path, ren))
+            yield ('rename-attribute' if k in ATTR_KIND else 'rename-reference' if k in REFS or k == '$ref'
+                   else 'rename-element' if k in CONTS else 'rename-feature'), \
+                f'key {where} renamed', ser(edit(path, ren))
             yield 'remove-element', f'key {where} removed', ser(edit(path, lambda p, key, d: p.pop(key)))
             kind = ATTR_KIND.get(k)
             wrong = []
@@ -408,6 +411,14 @@ def json_corruptions(data):
     yield 'dup-element', 'document duplicated as two roots', ser([doc, doc])
 
 
+def zero_roots_document(fmt):
+    """A legal document without any root: what pyecore writes once the only root of a resource is removed."""
+    if fmt == 'json':
+        return b'[]'
+    return (b"<?xml version='1.0' encoding='UTF-8'?>\n"
+            b'<xmi:XMI xmlns:xmi="http://www.omg.org/XMI" xmi:version="2.0"/>\n')
+
+
 def expected_objects(fmt, data):
     """Number of elements of the document that denote an object of the resource (roots and the elements of the
     containment features, reference stubs excluded); None when the document is not of the expected form."""
@@ -451,7 +462,7 @@ def tracing_rset():
         def __init__(self):
             super().__init__()
             self.trace_roots = []
-            self.oplog = []          # ('get', node, registry items) | ('remove', resource, registry items)
+            self.oplog = []          # ('get', node, items) | ('remove', resource, items) | ('create', resource, items)
             self._stack = []
 
         def get_resource(self, uri, options=None, **kwargs):
@@ -478,6 +489,12 @@ def tracing_rset():
             super().remove_resource(resource)
             if not self._stack:
                 self.oplog.append(('remove', resource, list(self.resources.items())))
+
+        def create_resource(self, uri, **kwargs):
+            r = super().create_resource(uri, **kwargs)
+            if not self._stack:         # asked for by the caller, not by get_resource
+                self.oplog.append(('create', r, list(self.resources.items())))
+            return r
     return TracingRS()
 
 
@@ -1077,6 +1094,9 @@ def compare_with_model(rs, model, res=None):
         if op[0] == 'get':
             number(op[1])
             collect(op[1])
+        elif op[0] == 'create':
+            rid[id(op[1])] = counter[0]
+            counter[0] += 1
 
     def failed_rid(v):
         u = getattr(getattr(v, 'uri', None), 'normalize', lambda: None)()
@@ -1094,6 +1114,8 @@ def compare_with_model(rs, model, res=None):
     for op in rs.oplog:
         if op[0] == 'get':
             toks += [2, intern(op[1]['norm'])] + script_tokens(op[1], intern, getattr(rs, 'href_prefix', ''))
+        elif op[0] == 'create':
+            toks += [1, intern(op[1].uri.normalize())]
         else:
             toks += [3, rid.get(id(op[1]), -999)]
     ans = model.ask('rset', toks)
@@ -1113,10 +1135,12 @@ def compare_with_model(rs, model, res=None):
             if n['ok'] and rid.get(id(n['resource'])) != r:
                 return (f'call {k} get_resource({os.path.basename(n["norm"])}): model returns resource {r}, '
                         f'impl resource {rid.get(id(n["resource"]))}')
+        if op[0] == 'create' and rid.get(id(op[1])) != r:
+            return f'call {k} create_resource: model names the resource {r}, impl {rid.get(id(op[1]))}'
         impl_reg = [(intern(kk), rid.get(id(v), failed_rid(v))) for kk, v in op[2]]
         if impl_reg != reg:
             inv = {v: kk for kk, v in keys.items()}
-            what = 'get_resource(' + os.path.basename(op[1]['norm']) + ')' if op[0] == 'get' else 'remove_resource'
+            what = 'get_resource(' + os.path.basename(op[1]['norm']) + ')' if op[0] == 'get' else op[0] + '_resource'
             return (f'registry after call {k} {what}: model '
                     + str([(os.path.basename(inv.get(a, '?')), b) for a, b in reg])
                     + ' impl ' + str([(os.path.basename(inv.get(a, '?')), b) for a, b in impl_reg]))
@@ -1148,10 +1172,18 @@ def registry_scenario(env, model, rng, timeout, mapped=False):
     with open(env.path(f'm2.{fmt}'), 'wb') as f:
         f.write(open(env.path(f'main.{fmt}'), 'rb').read())
     problems = []
-    names = [f'prior.{fmt}', f'm2.{fmt}', f'ext.{fmt}', f'main.{fmt}', f'absent.{fmt}']
+    with open(env.path(f'empty.{fmt}'), 'wb') as f:
+        f.write(zero_roots_document(fmt))
+    written.append(f'empty.{fmt}')
+    names = [f'prior.{fmt}', f'm2.{fmt}', f'ext.{fmt}', f'main.{fmt}', f'absent.{fmt}', f'empty.{fmt}', f'empty.{fmt}',
+             f'created.{fmt}']
     try:
-        for step in range(10):
-            if step % 3 == 2 and rs.resources:
+        for step in range(12):
+            if step % 4 == 1:
+                # a resource that is only created (a save target): asking for it must return it, not read a file
+                name = rng.choice([f'created.{fmt}', f'absent.{fmt}', f'empty.{fmt}', f'prior.{fmt}'])
+                rs.create_resource(URI(env.path(name)))
+            elif step % 3 == 2 and rs.resources:
                 vals = list(rs.resources.values())
                 # prefer a resource that owns an alias key
                 multi = [v for v in vals if sum(1 for w in vals if w is v) > 1]
@@ -1161,13 +1193,19 @@ def registry_scenario(env, model, rng, timeout, mapped=False):
                     problems.append(('remove-left-entry', 'remove_resource left a key bound to the removed resource'))
             else:
                 name = rng.choice(names)
+                registered = rs.resources.get(URI(env.path(name)).normalize())
                 try:
-                    watchdog(lambda: rs.get_resource(URI(env.path(name))), timeout)
+                    got = watchdog(lambda: rs.get_resource(URI(env.path(name))), timeout)
+                    if registered is not None and got is not registered:
+                        problems.append(('not-same-resource', f'get_resource({name}) returned another resource than the '
+                                         f'one registered for that URI ({len(registered.contents)} roots)'))
                 except Hang:
                     problems.append(('hang', f'get_resource({name}) on intact documents hangs'))
                     break
-                except Exception:
-                    pass
+                except Exception as e:
+                    if registered is not None:
+                        problems.append(('not-same-resource', f'get_resource({name}) raised {type(e).__name__} although '
+                                         'a resource is registered for that URI'))
     finally:
         for k in written:
             if k in env.files:
@@ -1182,19 +1220,35 @@ def registry_scenario(env, model, rng, timeout, mapped=False):
 
 # ----------------------------------------------------------------------------
 
+# Corruption kinds that, on the unchanged code, make the load fail only in its LINKING phase (references are set
+# after every object of the document exists), i.e. possibly after a bidirectional reference into another resource
+# was set: the known ghost-link findings are about these.  Every other kind (unknown attribute, unknown element,
+# ill-typed literal, wrong xsi:type, ...) is refused while the document is decoded, before anything else is touched:
+# a ghost link after one of those is NOT a known finding.  nested:* = the corrupted document is the referenced one.
+LATE_FAILURE = {
+    # XMI: references written as attributes and hrefs are linked after the whole tree was decoded
+    'xmi': {'break-ref', 'retarget-ref', 'break-href'},
+    # JSON: every reference (a {"$ref": ..} stub) is linked in the final phase of load
+    'json': {'wrong-type', 'rename-reference', 'break-ref', 'break-href', 'retarget-ref', 'remove-element', 'dup-id'},
+}
+
+
 def sig(clause, fmt, corruption, qualifier=None):
     """{property, clause, format, corruption kind}.  Two clauses name a root cause that does not depend
     on the particular token that was corrupted; their corruption field is a class:
-      prior-resource-changed / opposite-end-only : 'any' (whatever makes the load fail AFTER it linked to
-                                                   an object of another resource)
+      prior-resource-changed / opposite-end-only : 'late-failure' for the kinds of LATE_FAILURE (the load fails in
+                                                   its linking phase, after it linked to an object of another
+                                                   resource); any other kind keeps its own name
       dangling-proxy                             : 'missing-target' for every corruption (each one can only
                                                    leave a dangling proxy by taking the target of a reference
                                                    away: a damaged fragment or id, an element removed, renamed,
                                                    re-typed or replaced, the referenced document itself =
                                                    nested:*); an INTACT document with a dangling proxy keeps
                                                    corruption='intact' and is not a known finding"""
-    if clause == 'prior-resource-changed' and qualifier == 'opposite-end-only':
-        corruption = 'any'
+    base = corruption.split(':', 1)[1] if corruption.startswith(('byloc:', 'nested:')) else corruption
+    if clause == 'prior-resource-changed' and qualifier == 'opposite-end-only' and \
+            (corruption.startswith('nested:') or base in LATE_FAILURE[fmt]):
+        corruption = 'late-failure'
     elif clause == 'dangling-proxy' and corruption != 'intact':
         corruption = 'missing-target'
     s = {'property': PID, 'clause': clause, 'format': fmt, 'corruption': corruption}
@@ -1228,7 +1282,7 @@ def run(ctx, out):
     timeout = 5.0
     stats = {'attempts': 0, 'raised': 0, 'returned': 0, 'hang': 0, 'by_kind': {}, 'outcome_by_kind': {},
              'prefix_attempts': 0, 'corruption_attempts': 0, 'model_calls': 0, 'with_nested_loads': 0,
-             'setup_failed': 0, 'registry_walk_calls': 0, 'followed_by_intact_reload': 0, 'location_only_attempts': 0, 'later_load_affected_inherited': 0, 'docs': [], 'samples': [], 'distinct': set(), 'intact_not_loading': []}
+             'setup_failed': 0, 'registry_walk_calls': 0, 'followed_by_intact_reload': 0, 'ghost_kinds': {}, 'location_only_attempts': 0, 'later_load_affected_inherited': 0, 'docs': [], 'samples': [], 'distinct': set(), 'intact_not_loading': []}
     n_specs, nmax, prefix_cap = (4, 5, 700) if not thorough else (16, 7, 5000)
     budget = time.time() + (float(os.environ.get("C18_BUDGET", 32)) if not thorough else 500)
     cut = False
@@ -1270,6 +1324,10 @@ def run(ctx, out):
             tainted[env.fmt] = affected
         for prob in r['problems']:
             clause, msg = prob[0], prob[1]
+            if clause == 'prior-resource-changed':
+                kk = kind.split(':', 1)[1] if kind.startswith('byloc:') else kind
+                stats['ghost_kinds'].setdefault(env.fmt, {}).setdefault(kk, 0)
+                stats['ghost_kinds'][env.fmt][kk] += 1
             if clause in seen:
                 continue
             seen.add(clause)
@@ -1305,7 +1363,12 @@ def run(ctx, out):
                 if r['outcome'] != 'returned' and not r['setup_failed']:
                     stats['intact_not_loading'].append({'format': fmt, 'use_uuid': use_uuid, 'target': target, 'priors': priors})
                 record(env, target, full, priors, 'intact', 'the document as saved', info, r, full)
-            # registry walks on the intact documents (get_resource / remove_resource, aliases)
+            # a legal document WITHOUT roots, asked for twice (alone, and after another resource)
+            zero = zero_roots_document(fmt)
+            for priors in ([], [f'prior.{fmt}']):
+                r = attempt(env, f'empty.{fmt}', zero, priors, timeout, model)
+                record(env, f'empty.{fmt}', zero, priors, 'zero-roots', 'a document without any root', info, r)
+            # registry walks on the intact documents (create/get/remove_resource, aliases, zero-root documents)
             for wi in range(4):
                 ncalls, probs, corr = registry_scenario(env, model, rng, timeout, mapped=(wi % 2 == 1))
                 stats['registry_walk_calls'] += ncalls
@@ -1402,6 +1465,7 @@ def run(ctx, out):
         'attempts_by_corruption_kind': stats['by_kind'],
         'outcome_by_format_kind': stats['outcome_by_kind'],
         'attempts_with_nested_get_resource': stats['with_nested_loads'],
+        'prior_resource_changed_by_corruption_kind': stats['ghost_kinds'],
         'attempts_on_documents_naming_their_metamodel_by_location_only': stats['location_only_attempts'],
         'failed_loads_followed_by_intact_reload(same+fresh rset)': stats['followed_by_intact_reload'],
         'attempts_redone_after_a_watchdog_timeout': stats.get('watchdog_retries', 0),
